@@ -16,6 +16,7 @@ def contents():
     m = {c: open(os.path.join(d, c + ".sol"), "rb").read() for c in ("c1", "c2", "c3", "c4", "c5", "c6", "c8", "c9", "c10", "c11")}
     # a file of file-level items only (no contract, library or interface anywhere in its text)
     m["c12"] = open(os.path.join(ROOT, "corpus", "free_items.sol"), "rb").read()
+    m["c16"] = open(os.path.join(d, "c16.sol"), "rb").read()
     m["c14"] = open(os.path.join(d, "c14.sol"), "rb").read()
     m["c15"] = open(os.path.join(d, "c15.sol"), "rb").read()
     # files of some 70 KB in which every read-buffer boundary (4096, 8192, 16384, 65536 ...) falls inside a run of 3-byte
